@@ -405,8 +405,8 @@ pub fn gen_c10(seed: u64, tier: &str) -> Value {
             conns.push(json!({"proc": 0, "dst": dst, "start_ms": r.below(1500), "pipeline": false, "gap_ms": r.below(120), "reqs": reqs}));
         }
         // the rotation itself is a step that runs concurrently: it is placed *inside* the clients step
-        let rot = match r.below(5) {
-            0 => json!({"t": "doc", "doc": doc_v1("disabled")}),
+        let rot = match r.below(6) {
+            0 | 5 => json!({"t": "doc", "doc": doc_v1("disabled")}),
             1 => json!({"t": "host_latch", "mode": "none"}),
             2 => json!({"t": "host_latch", "mode": "new"}),
             _ => json!({"t": "host_latch", "mode": "rotate_with_file"}),
@@ -453,6 +453,14 @@ pub fn gen_c10(seed: u64, tier: &str) -> Value {
     let mut knobs = gen_knobs(&mut r, true);
     knobs["net.frag_ppm"] = json!(900_000);
     knobs["net.lat_max_ms"] = json!(*r.pick(&[1u64, 2, 5]));
+    if r.chance(1, 3) {
+        // the key keeper is the slow task of the run: whatever it does to the stored key in several steps (latch, clear,
+        // replace) is stretched over many signing requests
+        knobs["sched.profile"] = json!(1);
+        knobs["sched.victim_a"] = json!(6);
+        knobs["sched.victim_b"] = json!(-1);
+        knobs["sched.victim_ms"] = json!(1 + r.below(12));
+    }
     json!({
         "scenario": "keeper:C10", "seed": seed, "family": "keeper", "prop": "C10", "rotating": true,
         "knobs": knobs, "procs": procs, "users": users_json(), "steps": steps, "oracles": ["C10"],
